@@ -138,17 +138,10 @@ def cell_paths(fx, path, tname, name, kind):
     arg = ("ctor", POINTER, kind, () if kind == "Null" else (("0", ("var", "argument")),))
     rk = {"integer": "Integer", "boolean": "Boolean", "null": "Null"}[tname]
     recv = ("ctor", POINTER, rk, () if rk == "Null" else (("0", ("var", "receiver")),))
-    args = []
-    for p in b["params"]:
-        nm = p.get("name")
-        if nm == "method_name":
-            args.append(L(name))
-        elif nm == "argument_pointers":
-            args.append(("app", "array", (arg,)))
-        elif nm == "receiver_pointer":
-            args.append(recv)
-        else:
-            args.append(("var", nm))
+    # dispatch_method(program, state, receiver_pointer, method_name, argument_pointers) — by position
+    args = [("var", "program"), ("var", "state"), recv, L(name), ("app", "array", (arg,))]
+    if len(b["params"]) != 5:
+        raise ValueError("dispatch_method has %d parameters" % len(b["params"]))
     res = ex.run_body(b, args, State())
     out = []
     for s_, o in res:
